@@ -1,7 +1,14 @@
 """C03 - edits follow Python container semantics."""
 from contracts import k_index
 from pyvc.contract import verify_all
+from pyvc import native
 
 
 def run(rep, tier, seed):
     verify_all(rep, k_index.specs('C03') + k_index.refusal_specs('C03'))
+    sec = native.run('b_edit', 'main', {'props': ['C03'], 'tier': tier, 'seed': seed,
+                                        'ops': ['self', 'donor', 'slice'], 'norm': False})
+    sec['native_entry'] = ('b_edit', 'replay')
+    rep.bounded(sec)
+    rep.remainder = ('the handlers\' implementation of the container law and the virtual-field merge logic of the '
+                     'FSTView_* subclasses: bounded sweep only')
